@@ -65,7 +65,7 @@ func H_C02_contracts(t *verifrt.T) {
 	d0c, d0 := c02Digit(t, "d0")
 	d1c, d1 := c02Digit(t, "d1")
 	var doc []byte
-	form := t.Choice("form", 16)
+	form := t.Choice("form", 17)
 	switch form {
 	case 0:
 		doc = []byte(`{"s":null}`)
@@ -120,6 +120,9 @@ func H_C02_contracts(t *verifrt.T) {
 	case 14:
 		doc = append(append(append(append([]byte(`{"a":[`), d0c), ','), d1c), `,7,8]}`...)
 		want.A = [2]int8{d0, d1}
+	case 16:
+		doc = []byte(`{"a":[ ]}`)
+		want.A = [2]int8{0, 0}
 	case 15:
 		doc = append(append([]byte(`{"str":"`), d0c), `\n","b":false}`...)
 		want.Str = string([]byte{d0c, '\n'})
